@@ -197,6 +197,8 @@ def run_sign(chk):
             stats["lines"] += 1
             _bump(stats["by_proto"], r["proto"] + ":" + r["variant"] + ":" + r["group"])
             _bump(stats["by_kind"], r["qkind"])
+            if r.get("hash"):
+                _bump(stats.setdefault("by_hash", {}), r["proto"] + ":" + r["hash"])
             _bump(stats["by_api"], r["api"])
             _bump(stats["by_keysrc"], r["keysrc"])
             _bump(stats["by_policy"], r["polName"])
